@@ -374,3 +374,8 @@ SELFTESTS = [
          mutate=[('mofun.rough_uff', "(chii**0.5 - chij**0.5)**2", "(chii**0.5 - chij**0.5)")],
          instance=dict(family='bond')),
 ]
+
+
+def evidence_extra(main_res):
+    return dict(programs=sum(1 for r in main_res), disagreements_checked=sum(len(r['violations']) + len(r['unreproduced']) for r in main_res),
+                explanation='programs = harness instances, each comparing the real functions with the transcription over symbolic rows or the real table')
